@@ -133,11 +133,21 @@ def run(chk):
     ghosts = {'melt < 0': F(-1, 10), 'melt = 0': F(0), '0 < melt < crit': F(1, 4), 'melt = crit': F(1, 2), 'crit < melt < crit+width': F(21, 40),
               'melt = crit+width': F(11, 20), 'melt > crit+width': F(3, 4)}
 
+    kind_mismatch = []
+
+    def kind_of(name):
+        return 'viscosity' if 'visc' in name else ('rigidity' if 'shear' in name else None)
+
     def floor_policy(active):
         def fb(node):
-            # comparisons of the computed value with the liquid value (final floor): `value <= liquid` is `active`
-            names = {a.val[0] for a in X.atoms_of(node.args[1])} if node.args[1].op == 'atom' else set()
+            # comparisons of the computed value with the liquid value OF THE SAME KIND (final floor): `value <= liquid` is `active`.  A viscosity compared with the liquid
+            # rigidity (or the other way round) is no floor test: it is left undecided (the region then keeps a residual mask, which is reported) and noted for R19.3.
             if node.args[1].op == 'atom' and node.args[1].val[0] in ('liquid_viscosity', 'liquid_shear'):
+                want = kind_of(node.args[1].val[0])
+                have = {kind_of(a.val[0]) for a in X.atoms_of(node.args[0])} - {None}
+                if have and have != {want}:
+                    kind_mismatch.append(f'a {"/".join(sorted(have))} value is compared with {node.args[1].val[0]}: {X.show(node)[:90]}')
+                    return None
                 return {'<=': active, '>': not active, '<': active, '>=': not active}.get(node.val)
             return None
         return fb
@@ -186,6 +196,8 @@ def run(chk):
             eq('R19.2', 'spohn shear law above the floor == 10^(slope/T - phase)', s, X.power(X.const(10), fss / T - fps), mm.where(f_spo))
     ov, os_ = it.call(mm, f_moff, [melt, eta0, mu0])
     eq('R19.2', 'off: viscosity unchanged', ov, eta0, mm.where(f_moff)); eq('R19.2', 'off: shear unchanged', os_, mu0, mm.where(f_moff))
+    chk.ob('R19.3', 'melting laws: every floor test compares a value with the liquid value of its own kind (viscosity with liquid viscosity, rigidity with liquid rigidity)', not kind_mismatch,
+           '; '.join(sorted(set(kind_mismatch))[:3]), whereh, key='R19.3|floor tests compare like with like', method='parameter kinds of the operands of every comparison with a liquid value')
     # R19.3 kind consistency: branches of the shear mask-sum may only mention rigidity-kind parameters (and dimensionless/temperature ones), viscosity branches only viscosity-kind
     visc_kind = {'premelt_viscosity', 'liquid_viscosity'}; shear_kind = {'premelt_shear', 'liquid_shear'}
     for label in ghosts:
